@@ -255,6 +255,16 @@ fn check_bytes(v: &[u8], acc: &mut Acc) {
     acc.record("binary", format!("{:?}", v), &t, rt && t2 == t, t == model_base64(v), &format!("len%3={}", v.len() % 3));
 }
 
+fn check_bytes_long(len: usize, pat: u8, acc: &mut Acc) {
+    let bytes: Vec<u8> = (0..len).map(|i| match pat { 0 => 0u8, 1 => 0xff, _ => (i * 7 + 3) as u8 }).collect();
+    let v = &bytes[..];
+    let b = Bytes::copy_from_slice(v);
+    let t = b.to_plain();
+    let rt = Bytes::from_plain(&t).ok().as_ref() == Some(&b);
+    let t2 = v.to_plain();
+    acc.record("binary", format!("long:{}:{}", len, pat), &t[..t.len().min(24)], rt && t2 == t, t == model_base64(v), &format!("long,len%3={}", v.len() % 3));
+}
+
 fn check_uuid(v: u128, acc: &mut Acc) {
     let u = Uuid::from_u128(v);
     let t = u.to_plain();
@@ -470,6 +480,29 @@ pub fn run(args: &Args) -> Report {
             .reduce(Acc::default, Acc::merge);
         acc = acc.merge(a);
     }
+    // length dimension: every length up to a bound with three fill patterns, then around
+    // every power of two (block / buffer boundaries of any chunked encoder)
+    let every_len = if thorough { 8200usize } else { 1100 };
+    let mut lens: Vec<usize> = (0..=every_len).collect();
+    let top = if thorough { 20 } else { 16 };
+    for k in 10..=top {
+        for d in [-2i64, -1, 0, 1, 2, 3] {
+            lens.push(((1i64 << k) + d) as usize);
+        }
+    }
+    lens.sort();
+    lens.dedup();
+    let a = lens
+        .par_iter()
+        .fold(Acc::default, |mut acc, len| {
+            for pat in 0..3u8 {
+                check_bytes_long(*len, pat, &mut acc);
+            }
+            acc
+        })
+        .reduce(Acc::default, Acc::merge);
+    acc = acc.merge(a);
+    report.bound("binary_lengths", format!("every length 0..={} and 2^k-2..2^k+3 for k in 10..={}, x 3 fill patterns", every_len, top));
     report.bound("binary", format!("all byte strings of length <= 2; length 3..{} over 16 byte values", max_len));
 
     // uuid: each nibble position x each value over the nil and the max background
@@ -598,6 +631,12 @@ fn replay(path: &str, mut report: Report) -> Report {
         "integer" => check_i32(val.parse().unwrap(), &mut acc),
         "safelong" => check_safelong(val.parse().unwrap(), &mut acc),
         "uuid" => check_uuid(u128::from_str_radix(val.trim_start_matches("0x"), 16).unwrap(), &mut acc),
+        "binary" if val.starts_with("long:") => {
+            let mut it = val.split(':').skip(1);
+            let len: usize = it.next().unwrap().parse().unwrap();
+            let pat: u8 = it.next().unwrap().parse().unwrap();
+            check_bytes_long(len, pat, &mut acc)
+        }
         "binary" => {
             let bytes: Vec<u8> = serde_json::from_str(val).unwrap();
             check_bytes(&bytes, &mut acc)
